@@ -140,6 +140,12 @@ func (w *walker) walk(v reflect.Value, path func() string) {
 		}
 	case reflect.Struct:
 		t := v.Type()
+		if opaque(t) {
+			// synchronisation objects (sync.Mutex, sync.Once, sync.Pool, atomic.*, the
+			// scheduler shims) are not data: their internal state legitimately changes
+			w.leaf(path, "<"+t.String()+">")
+			return
+		}
 		for i := 0; i < v.NumField(); i++ {
 			i := i
 			w.walk(v.Field(i), func() string { return path() + "." + t.Field(i).Name })
@@ -153,6 +159,14 @@ func (w *walker) walk(v reflect.Value, path func() string) {
 	default:
 		w.leaf(path, "?"+v.Kind().String())
 	}
+}
+
+func opaque(t reflect.Type) bool {
+	switch t.PkgPath() {
+	case "sync", "sync/atomic":
+		return true
+	}
+	return strings.HasPrefix(t.Name(), "verif")
 }
 
 func keyString(k reflect.Value) string {
